@@ -82,7 +82,8 @@ struct RxState {
 /// A connection whose incoming bytes are collected by a background thread, so that the writer can
 /// never dead-lock against a service that replies while we are still sending.
 pub struct Peer {
-    conn: Conn,
+    writer: Box<dyn Write + Send>,
+    closer: Box<dyn Fn(Shutdown) + Send>,
     rx: Arc<(Mutex<RxState>, Condvar)>,
     reader: Option<std::thread::JoinHandle<()>>,
     pub write_failed: bool,
@@ -101,7 +102,23 @@ impl Peer {
     }
 
     pub fn from_conn(conn: Conn) -> std::io::Result<Peer> {
-        let mut rconn = conn.try_clone()?;
+        let rconn = conn.try_clone()?;
+        let wconn = conn.try_clone()?;
+        Ok(Self::from_parts(
+            Box::new(rconn),
+            Box::new(wconn),
+            Box::new(move |how| {
+                let _ = conn.shutdown(how);
+            }),
+        ))
+    }
+
+    /// A peer over arbitrary halves (e.g. the reader/writer of a varlink::Connection).
+    pub fn from_parts(
+        mut rconn: Box<dyn Read + Send>,
+        writer: Box<dyn Write + Send>,
+        closer: Box<dyn Fn(Shutdown) + Send>,
+    ) -> Peer {
         let rx: Arc<(Mutex<RxState>, Condvar)> = Arc::new((Mutex::new(RxState::default()), Condvar::new()));
         let rx2 = rx.clone();
         let reader = std::thread::spawn(move || {
@@ -122,12 +139,7 @@ impl Peer {
                 }
             }
         });
-        Ok(Peer {
-            conn,
-            rx,
-            reader: Some(reader),
-            write_failed: false,
-        })
+        Peer { writer, closer, rx, reader: Some(reader), write_failed: false }
     }
 
     /// Write bytes; a write error (peer closed) is remembered, not fatal.
@@ -135,7 +147,7 @@ impl Peer {
         if self.write_failed {
             return;
         }
-        if self.conn.write_all(b).is_err() {
+        if self.writer.write_all(b).is_err() || self.writer.flush().is_err() {
             self.write_failed = true;
         }
     }
@@ -233,12 +245,12 @@ impl Peer {
     }
 
     pub fn half_close(&self) {
-        let _ = self.conn.shutdown(Shutdown::Write);
+        (self.closer)(Shutdown::Write);
     }
 
     /// Close both directions and collect everything received.
     pub fn finish(mut self) -> Vec<u8> {
-        let _ = self.conn.shutdown(Shutdown::Both);
+        (self.closer)(Shutdown::Both);
         if let Some(h) = self.reader.take() {
             let _ = h.join();
         }
@@ -249,7 +261,7 @@ impl Peer {
 
 impl Drop for Peer {
     fn drop(&mut self) {
-        let _ = self.conn.shutdown(Shutdown::Both);
+        (self.closer)(Shutdown::Both);
         if let Some(h) = self.reader.take() {
             let _ = h.join();
         }
